@@ -135,6 +135,10 @@ class HomotopyMixin(OptimizationProblem):
                     # Recompute the sparsity structure for the nonlinear model family.
                     self.clear_transcription_cache()
 
+                if self.__theta >= 1.0:
+                    # The original problem (theta = 1) has been solved.
+                    break
+
             else:
                 if self.__theta == options["theta_start"]:
                     break
@@ -156,7 +160,12 @@ class HomotopyMixin(OptimizationProblem):
                         logger.info(failure_message)
                     break
 
-            self.__theta += delta_theta
+            if self.__theta + delta_theta >= 1.0:
+                # Never step beyond the original problem, and always end on it exactly.
+                delta_theta = 1.0 - self.__theta
+                self.__theta = 1.0
+            else:
+                self.__theta += delta_theta
 
         # Post-processing
         if postprocessing:
